@@ -59,7 +59,7 @@ def rand_seg(spt, r, kind, scale=1.0, arc_class=None):
     elif cls == 'ell0':
         rad, rot = complex(r.uniform(0.3, 1.5), r.uniform(0.3, 1.5)) * scale, 0
     else:
-        rad, rot = complex(r.uniform(0.3, 1.5), r.uniform(0.3, 1.5)) * scale, r.choice([30, 90, -45.5, 117.25, r.uniform(-180, 180)])
+        rad, rot = complex(r.uniform(0.3, 1.5), r.uniform(0.3, 1.5)) * scale, r.choice([30, 90, -45.5, 117.25, r.uniform(-180, 180), 180, -180, 540, 360, 270])
     return P.Arc(a, rad, rot, r.random() < 0.5, r.random() < 0.5, b)
 
 
